@@ -440,11 +440,107 @@ def rvars():
     return rhard(True, "rvars")
 
 
-DOCS = {"rmeta": rmeta, "rdict": rdict, "rcomm": rcomm, "rhard": rhard, "rvars": rvars}
+# -------------------------------------------------------------------------------------------------
+def rwide():
+    """numbers as documents spell them and as wide as the types allow: hexadecimal / exponent spellings of integers (the writer
+    spells every integer in decimal and every float with repr), 64 bit constants and coefficients (not doubles), floats that
+    need all 17 significant digits or an extreme exponent.  A value that detours through another number representation on the
+    way document -> database -> document -> database comes back altered only out here."""
+    def u(bits, base="A_UINT32", extra=""):
+        return (f'<DIAG-CODED-TYPE BASE-DATA-TYPE="{base}"{extra} xsi:type="STANDARD-LENGTH-TYPE"><BIT-LENGTH>{bits}</BIT-LENGTH></DIAG-CODED-TYPE>')
+
+    def cconst(name, pos, value, bits, base="A_UINT32"):
+        return (f'<PARAM xsi:type="CODED-CONST"><SHORT-NAME>{name}</SHORT-NAME><BYTE-POSITION>{pos}</BYTE-POSITION>'
+                f'<CODED-VALUE>{value}</CODED-VALUE>{u(bits, base)}</PARAM>')
+
+    f64 = '<PHYSICAL-TYPE BASE-DATA-TYPE="A_FLOAT64"/>'
+    i64 = '<PHYSICAL-TYPE BASE-DATA-TYPE="A_INT32"/>'
+    dops = [
+        dop("W.u64", dct=u(64)),
+        dop("W.s64", dct=u(64, "A_INT32"), phys=i64),
+        dop("W.lin64", dct=u(64),
+            cm='<COMPU-METHOD><CATEGORY>LINEAR</CATEGORY><COMPU-INTERNAL-TO-PHYS><COMPU-SCALES><COMPU-SCALE>'
+               + limit("LOWER-LIMIT", "0x20000000000001", "CLOSED") + limit("UPPER-LIMIT", "0xFFFFFFFFFFFFFFF0", "CLOSED")
+               + '<COMPU-RATIONAL-COEFFS><COMPU-NUMERATOR><V>-0x20000000000001</V><V>1</V></COMPU-NUMERATOR>'
+               '<COMPU-DENOMINATOR><V>1e0</V></COMPU-DENOMINATOR></COMPU-RATIONAL-COEFFS></COMPU-SCALE></COMPU-SCALES></COMPU-INTERNAL-TO-PHYS></COMPU-METHOD>'),
+        dop("W.rat64", dct=u(64),
+            cm='<COMPU-METHOD><CATEGORY>RAT-FUNC</CATEGORY><COMPU-INTERNAL-TO-PHYS><COMPU-SCALES><COMPU-SCALE>'
+               + limit("LOWER-LIMIT", 0) + limit("UPPER-LIMIT", "4294967297")
+               + '<COMPU-RATIONAL-COEFFS><COMPU-NUMERATOR><V>9223372036854775809</V><V>0x100000001</V><V>3</V></COMPU-NUMERATOR>'
+               '<COMPU-DENOMINATOR><V>18446744073709551615</V></COMPU-DENOMINATOR></COMPU-RATIONAL-COEFFS></COMPU-SCALE></COMPU-SCALES>'
+               '</COMPU-INTERNAL-TO-PHYS></COMPU-METHOD>'),
+        dop("W.f64", dct=u(64, "A_FLOAT64"), phys=f64,
+            cm='<COMPU-METHOD><CATEGORY>LINEAR</CATEGORY><COMPU-INTERNAL-TO-PHYS><COMPU-SCALES><COMPU-SCALE>'
+               + limit("LOWER-LIMIT", "-1.7976931348623157E308") + limit("UPPER-LIMIT", "1.7976931348623157e+308")
+               + '<COMPU-RATIONAL-COEFFS><COMPU-NUMERATOR><V>0.30000000000000004</V><V>123456789.12345679</V></COMPU-NUMERATOR>'
+               '<COMPU-DENOMINATOR><V>1E-3</V></COMPU-DENOMINATOR></COMPU-RATIONAL-COEFFS></COMPU-SCALE></COMPU-SCALES></COMPU-INTERNAL-TO-PHYS></COMPU-METHOD>'),
+        dop("W.f32", dct=u(32, "A_FLOAT32"), phys='<PHYSICAL-TYPE BASE-DATA-TYPE="A_FLOAT32"><PRECISION>17</PRECISION></PHYSICAL-TYPE>',
+            cm='<COMPU-METHOD><CATEGORY>LINEAR</CATEGORY><COMPU-INTERNAL-TO-PHYS><COMPU-SCALES><COMPU-SCALE>'
+               '<COMPU-RATIONAL-COEFFS><COMPU-NUMERATOR><V>5e-324</V><V>16777217</V></COMPU-NUMERATOR>'
+               '<COMPU-DENOMINATOR><V>1e22</V></COMPU-DENOMINATOR></COMPU-RATIONAL-COEFFS></COMPU-SCALE></COMPU-SCALES></COMPU-INTERNAL-TO-PHYS></COMPU-METHOD>'),
+        dop("W.text", dct=u(64), phys='<PHYSICAL-TYPE BASE-DATA-TYPE="A_UNICODE2STRING"/>',
+            cm='<COMPU-METHOD><CATEGORY>TEXTTABLE</CATEGORY><COMPU-INTERNAL-TO-PHYS><COMPU-SCALES>'
+               '<COMPU-SCALE>' + limit("LOWER-LIMIT", "0x8000000000000001") + limit("UPPER-LIMIT", "0x8000000000000001") + '<COMPU-CONST><VT>odd</VT></COMPU-CONST></COMPU-SCALE>'
+               '<COMPU-SCALE>' + limit("LOWER-LIMIT", "9223372036854775808") + limit("UPPER-LIMIT", "9223372036854775808") + '<COMPU-CONST><VT>even</VT></COMPU-CONST></COMPU-SCALE>'
+               '<COMPU-SCALE>' + limit("LOWER-LIMIT", "1e3") + limit("UPPER-LIMIT", "2.0E3") + '<COMPU-INVERSE-VALUE><V>0x5DC</V></COMPU-INVERSE-VALUE>'
+               '<COMPU-CONST><VT>thousands</VT></COMPU-CONST></COMPU-SCALE></COMPU-SCALES>'
+               '<COMPU-DEFAULT-VALUE><VT>other</VT><COMPU-INVERSE-VALUE><V>0xFFFFFFFFFFFFFFFF</V></COMPU-INVERSE-VALUE></COMPU-DEFAULT-VALUE>'
+               '</COMPU-INTERNAL-TO-PHYS></COMPU-METHOD>'),
+        dop("W.tab", dct=u(64), phys=f64,
+            cm='<COMPU-METHOD><CATEGORY>TAB-INTP</CATEGORY><COMPU-INTERNAL-TO-PHYS><COMPU-SCALES>'
+               '<COMPU-SCALE>' + limit("LOWER-LIMIT", "0x0") + '<COMPU-CONST><V>-0.30000000000000004</V></COMPU-CONST></COMPU-SCALE>'
+               '<COMPU-SCALE>' + limit("LOWER-LIMIT", "0x20000000000001") + '<COMPU-CONST><V>1E+22</V></COMPU-CONST></COMPU-SCALE>'
+               '</COMPU-SCALES></COMPU-INTERNAL-TO-PHYS></COMPU-METHOD>'),
+        dop("W.constr", dct=u(64),
+            extra='<INTERNAL-CONSTR>' + limit("LOWER-LIMIT", "0x1") + limit("UPPER-LIMIT", "0xFFFFFFFFFFFFFFFE", "CLOSED")
+                  + '<SCALE-CONSTRS><SCALE-CONSTR VALIDITY="NOT-VALID">' + limit("LOWER-LIMIT", "0x20000000000001") + limit("UPPER-LIMIT", "0x20000000000003")
+                  + '</SCALE-CONSTR></SCALE-CONSTRS></INTERNAL-CONSTR>'),
+    ]
+    dtcdops = ('<DTC-DOPS><DTC-DOP ID="W.dtc"><SHORT-NAME>wdtc</SHORT-NAME>' + u(64) + '<PHYSICAL-TYPE BASE-DATA-TYPE="A_UINT32"/>'
+               '<COMPU-METHOD><CATEGORY>IDENTICAL</CATEGORY></COMPU-METHOD><DTCS>'
+               '<DTC ID="W.dtc.1"><SHORT-NAME>big</SHORT-NAME><TROUBLE-CODE>9007199254740993</TROUBLE-CODE><TEXT>beyond 2**53</TEXT><LEVEL>4294967297</LEVEL></DTC>'
+               '<DTC ID="W.dtc.2"><SHORT-NAME>ones</SHORT-NAME><TROUBLE-CODE>18446744073709551615</TROUBLE-CODE><TEXT>64 bits</TEXT></DTC>'
+               '</DTCS></DTC-DOP></DTC-DOPS>')
+    units = ('<UNIT-SPEC><UNITS><UNIT ID="W.unit"><SHORT-NAME>wunit</SHORT-NAME><DISPLAY-NAME>w</DISPLAY-NAME>'
+             '<FACTOR-SI-TO-UNIT>1.0000000000000002</FACTOR-SI-TO-UNIT><OFFSET-SI-TO-UNIT>-2.2250738585072014E-308</OFFSET-SI-TO-UNIT></UNIT></UNITS></UNIT-SPEC>')
+    ddds = ('<DIAG-DATA-DICTIONARY-SPEC>' + dtcdops + '<DATA-OBJECT-PROPS>' + "".join(dops) + '</DATA-OBJECT-PROPS>' + units + '</DIAG-DATA-DICTIONARY-SPEC>')
+    rq1 = (sid_param("0x31") + cconst("magic", 1, "0x8000000000000001", 64) + cconst("ones", 9, "0xFFFFFFFFFFFFFFFF", 64)
+           + cconst("dec", 17, "9007199254740993", 64) + cconst("neg", 25, "-0x7FFFFFFFFFFFFFFF", 64, "A_INT32")
+           + cconst("sci", 33, "1e3", 16) + cconst("flt", 35, "0.30000000000000004", 64, "A_FLOAT64")
+           + '<PARAM xsi:type="PHYS-CONST"><SHORT-NAME>pconst</SHORT-NAME><BYTE-POSITION>43</BYTE-POSITION>'
+             '<PHYS-CONSTANT-VALUE>0xFEDCBA9876543211</PHYS-CONSTANT-VALUE><DOP-REF ID-REF="W.u64"/></PARAM>'
+           + value_param("dflt", "W.lin64", 51, extra="<PHYSICAL-DEFAULT-VALUE>0x7000000000000001</PHYSICAL-DEFAULT-VALUE>"))
+    rq2 = (sid_param("0x32") + value_param("s", "W.s64", 1, extra="<PHYSICAL-DEFAULT-VALUE>-9223372036854775807</PHYSICAL-DEFAULT-VALUE>")
+           + value_param("t", "W.text", 9, extra="<PHYSICAL-DEFAULT-VALUE>odd</PHYSICAL-DEFAULT-VALUE>")
+           + value_param("c", "W.constr", 17, extra="<PHYSICAL-DEFAULT-VALUE>0xFFFFFFFFFFFFFFFE</PHYSICAL-DEFAULT-VALUE>"))
+    pr1 = (sid_param("0x71") + value_param("lin", "W.lin64", 1) + value_param("txt", "W.text", 9) + value_param("f", "W.f64", 17)
+           + value_param("tab", "W.tab", 25) + value_param("rat", "W.rat64", 33) + value_param("dtc", "W.dtc", 41))
+    nr1 = (sid_param("0x7F") + '<PARAM SEMANTIC="NRC" xsi:type="NRC-CONST"><SHORT-NAME>nrc</SHORT-NAME><BYTE-POSITION>1</BYTE-POSITION><CODED-VALUES>'
+           '<CODED-VALUE>0x8000000000000001</CODED-VALUE><CODED-VALUE>18446744073709551615</CODED-VALUE><CODED-VALUE>0x12</CODED-VALUE></CODED-VALUES>'
+           + u(64) + '</PARAM>')
+    layer = ('<BASE-VARIANT ID="wbv">' + ident("wbv") + ddds
+             + '<DIAG-COMMS>' + service("S.w", "RQ.w", pos=["PR.w"], neg=["NR.w"]) + service("S.w2", "RQ.w2") + '</DIAG-COMMS>'
+             '<REQUESTS>' + request("RQ.w", rq1) + request("RQ.w2", rq2) + '</REQUESTS>'
+             '<POS-RESPONSES>' + response("POS-RESPONSE", "PR.w", pr1) + '</POS-RESPONSES>'
+             '<NEG-RESPONSES>' + response("NEG-RESPONSE", "NR.w", nr1) + '</NEG-RESPONSES></BASE-VARIANT>')
+    return doc("rwide", f'<BASE-VARIANTS>{layer}</BASE-VARIANTS>')
+
+
+# messages for the layers of rwide (decoded on every layer of every database next to the fixed ones; a layer they do not belong to
+# answers with the same DecodeError before and after the round trip): PR.w = sid, lin, txt, f, tab, rat, dtc; NR.w = sid, nrc
+SAMPLE_PDUS = [
+    "71" + "8020000000000002" + "8000000000000001" + "3fd3333333333334" + "0010000000000001" + "0000000000000007" + "0020000000000001",
+    "71" + "ffffffffffffffef" + "8000000000000000" + "7fefffffffffffff" + "0020000000000001" + "0000000100000001" + "ffffffffffffffff",
+    "71" + "0020000000000001" + "00000000000005dc" + "0000000000000001" + "0000000000000000" + "0000000000000000" + "0020000000000001",
+    "7f8000000000000001", "7fffffffffffffffff", "7f0000000000000012", "7f8000000000000000", "7f0020000000000001",
+]
+
+
+DOCS = {"rmeta": rmeta, "rdict": rdict, "rcomm": rcomm, "rhard": rhard, "rvars": rvars, "rwide": rwide}
 
 # auxiliary files the documents refer to (LIBRARY/CODE-FILE, PROG-CODE/CODE-FILE)
 AUX = {"rmeta": {"lib.jar": b"PK-lib"}, "rdict": {"d.jar": b"PK-d", "conv.java": b"class Conv {}"},
-       "rcomm": {"c.jar": b"PK-c", "job.jar": b"PK-job", "job2.class": b"\xca\xfe\xba\xbe"}, "rhard": {}, "rvars": {}}
+       "rcomm": {"c.jar": b"PK-c", "job.jar": b"PK-job", "job2.class": b"\xca\xfe\xba\xbe"}, "rhard": {}, "rvars": {}, "rwide": {}}
 
 
 def load(name):
